@@ -5,6 +5,8 @@
 package main
 
 import (
+	"runtime"
+	"os"
 	"errors"
 	"fmt"
 	"math/rand"
@@ -166,6 +168,39 @@ func main() {
 	isolation.LoadRules([]*isolation.Rule{{Resource: names[2], MetricType: isolation.Concurrency, Threshold: 3}})
 	rounds := run.N(20, 500)
 	const G, K = 16, 150
+	{
+		// the very first inbound requests of the process, from all goroutines at the same moment (whatever the library
+		// sets up on first use is set up under contention): afterwards nothing is in flight, so the in-flight figure of
+		// the inbound total - a plain counter, not a window - must be exactly zero
+		var gate, ready int32
+		var fw sync.WaitGroup
+		for g := 0; g < G; g++ {
+			fw.Add(1)
+			go func(g int) {
+				defer fw.Done()
+				atomic.AddInt32(&ready, 1)
+				for atomic.LoadInt32(&gate) == 0 { // (spinning: a channel wakes its waiters one after the other)
+				}
+				// through the chain that holds only the statistic slot: the shortest way to the inbound total
+				if e, b := sentinel.Entry("c01par-first", sentinel.WithSlotChain(bareChain), sentinel.WithTrafficType(base.Inbound)); b == nil {
+					e.Exit()
+				}
+			}(g)
+		}
+		for k := 0; k < 2000000 && atomic.LoadInt32(&ready) < G; k++ {
+			runtime.Gosched()
+		}
+		atomic.StoreInt32(&gate, 1)
+		fw.Wait()
+		if g := stat.InboundNode().CurrentConcurrency(); g != 0 {
+			run.Violation("C01/par:first-use:gauge-nonzero-at-quiescence", fmt.Sprintf("after the first %d inbound requests of the process (entered and exited at the same moment) the inbound in-flight figure is %d", G, g), map[string]interface{}{"goroutines": G})
+		}
+		run.Count("first_use_phases", 1)
+		run.Distinct(vk.Hash("first-use", os.Getenv("VERIF_SEED")))
+	}
+	if os.Getenv("VERIF_MODE") == "first" {
+		return // (engine "first": one first use per process, many short processes)
+	}
 	for r := 0; r < rounds; r++ {
 		if run.Skip(r) {
 			continue
